@@ -206,6 +206,19 @@ m("c17-many-holes-scratch-leak", "C17", POLYFILL,
     return iter;""",
   "_iterInitPolygonCompact: extra scratch block leaked for polygons with more than 16 holes only", "O3-leak")
 
+m("c17-hang-on-failed-alloc", "C17", H3INDEX,
+  """        if (!compactableHexes) {
+            H3_MEMORY(free)(remainingHexes);
+            H3_MEMORY(free)(hashSetArray);
+            return E_MEMORY_ALLOC;
+        }""",
+  """        if (!compactableHexes) {
+            // "retry until memory is available"
+            while (!compactableHexes) compactableHexes = H3_MEMORY(calloc)(maxCompactableCount, sizeof(H3Index));
+        }""",
+  "compactCells: retries the per-round allocation forever instead of reporting E_MEMORY_ALLOC (never returns when "
+  "the allocator keeps failing; returns success when it fails once)", None)
+
 # ------------------------------------------------------------------ C18 ----
 m("c18-memo-ipow", "C18", MATHX,
   """int64_t _ipow(int64_t base, int64_t exp) {
